@@ -123,9 +123,11 @@ Relinquish(p) ==
     /\ Apply(Settle([slot EXCEPT ![EffP(p)] = Null], dl))
     /\ res' = "ok" /\ act' = [op |-> "relinquish", p |-> p, v |-> Null] /\ Fixed
 
-\* a write (v in Values) or relinquish (v = Null) of the present value with a priority outside 1..16
+\* a write (v in Values) or relinquish (v = Null) of the present value with a priority outside 1..16, or a write -- at
+\* any priority -- of something that is not a value of the datatype (Undefined: e.g. a number outside the enumeration)
+Undefined == "x"
 BadWrite(p, v) ==
-    /\ p \notin 1..16
+    /\ p \notin 1..16 \/ v = Undefined
     /\ res' = "err" /\ act' = [op |-> "bad", p |-> p, v |-> v]
     /\ UNCHANGED <<slot, pv, dl>> /\ Fixed
 
@@ -165,6 +167,7 @@ Cmds ==
     \/ \E p \in Prios, v \in Values : Write(p, v)
     \/ \E p \in Prios : Relinquish(p)
     \/ \E p \in BadPrios, v \in Values \cup {Null} : BadWrite(p, v)
+    \/ \E p \in Prios : BadWrite(p, Undefined)
     \/ BadIndex0
     \/ HoldExpire
     \/ \E d \in Ticks : Tick(d)
